@@ -44,4 +44,22 @@ example : ExtOK (fun p => if p = 0 then some (.url, 3) else none) 3 := by
   · simp [hp] at h; omega
   · simp [hp] at h
 
+/-- non-vacuity of `parsePlain_total` / `parsePlain_steps`: the external table that reports a three-character URL at
+offset 0 is in bounds for the five-character text `a:b c`; both theorems applied to it … -/
+example : ∃ toks, parsePlain ⟨fun _ => false, fun _ => false, fun _ => false⟩
+      (fun p => if p = 0 then some (.url, 3) else none) ['a', ':', 'b', ' ', 'c'] = .ok toks ∧ toks.length ≤ 5 := by
+  have hext : ExtOK (fun p => if p = 0 then some (.url, 3) else none) ['a', ':', 'b', ' ', 'c'].length := by
+    intro pos k n h
+    by_cases hp : pos = 0
+    · simp [hp] at h; simp; omega
+    · simp [hp] at h
+  obtain ⟨toks, h⟩ := parsePlain_total ⟨fun _ => false, fun _ => false, fun _ => false⟩ _ ['a', ':', 'b', ' ', 'c'] hext
+  exact ⟨toks, h, parsePlain_steps _ _ _ hext toks h⟩
+
+/-- … and what the parser computes there: the URL token from the table, then the model's own lexers (with the empty
+class table `c` is caught by `lex_catch`) -/
+example : parsePlain ⟨fun _ => false, fun _ => false, fun _ => false⟩
+      (fun p => if p = 0 then some (.url, 3) else none) ['a', ':', 'b', ' ', 'c'] =
+    .ok [⟨⟨0, 3⟩, .url⟩, ⟨⟨3, 4⟩, .space 1⟩, ⟨⟨4, 5⟩, .unlintable⟩] := by rfl
+
 end Harper.C01
